@@ -31,7 +31,7 @@ META = dict(
                   "asyncio.wait_for / thread-pool behaviour as modelled by body_run (exercised, not verified)"],
     assumptions=["post_execute / post_save hooks may rewrite the shared TaskiqResult object: the theorems say what is saved "
                  "is the object as the hooks left it (res2); with result-preserving hooks it is the raw outcome",
-                 "sync body under timeout <= 0 is a thread race (c_race) - not generated"],
+                 "sync body under timeout <= 0 is a thread race (c_race): exercised through scripted eager / lazy executors only"],
 )
 
 
@@ -59,7 +59,7 @@ def run(ctx):
     rep.add_obligations(C.proof_obligations("C07"))
     L.explore(ctx, rep, "C07", L.load_corpus_cases("C07"), "corpus", ORACLES, nontrivial)
     r = ctx.sub_rng("gen")
-    broken = L.explore(ctx, rep, "C07", [L.gen_recv(r, "c07") for _ in range(ctx.n(900, 30000))], "main", ORACLES,
+    broken = L.explore(ctx, rep, "C07", [L.gen_recv(r, "c07") for _ in range(ctx.n(900, 20000))], "main", ORACLES,
                        nontrivial)
     if (broken or any(not o["ok"] for o in rep.obligations)) and not rep.failures:
         r2 = ctx.sub_rng("search")
